@@ -64,7 +64,9 @@ def oracle(ops, impl):
                 raw = bytes.fromhex(got) if got and got != "-" else b""
                 expect.append(got if raw.count(b"/") >= 2 else None)
         elif f[0] == "scan" and listing_ok:
-            names = rep.split("names=")[-1]
+            names = rep.split("names=")[-1].split(" ")[0]
+            if " paged=" in rep and (" paged=ok" not in rep or " detail=ok" not in rep):
+                bad.append((i, "the paginated / per-swamp queries of the explorer disagree with its own full listing: " + rep.split(" paged=")[1][:60], None))
             got = set() if names == "none" else set(names.split(","))
             want_set = set(x for x in expect if x)
             if got != want_set:
